@@ -21,6 +21,7 @@ running the parser in sub-processes with different PYTHONHASHSEED and comparing 
 import ast
 
 from pyvc.vcgen import Obligation
+from pyvc.values import Unsupported
 
 MUTATORS = {"append", "extend", "insert", "pop", "remove", "clear", "update", "setdefault", "add", "discard", "popitem",
             "sort", "reverse", "__setitem__", "__delitem__", "appendleft", "popleft", "move_to_end"}
@@ -206,6 +207,8 @@ class StaticFrameUnit:
                     elif not isinstance(c, (ast.Lambda,)):
                         walk(c, prefix, outer)
             walk(m.tree, short, frozenset())
+        if len(obs) < 20:
+            raise Unsupported("static frame unit found only %d clauses: the call graph from %s is broken" % (len(obs), ENTRY))
         return obs, {"paths": len(obs), "assumptions": [
             "static frame clauses are syntactic: writes through an alias of a module-level object (x = REGISTRY; x.append) and sets reaching an "
             "iteration through a call are not seen; call graph by function name from %s" % ", ".join(ENTRY)]}
